@@ -64,6 +64,7 @@ func (rs *restorer) GetCurrentCheckpoint() *Metadata {
 
 // Implements Restorer.
 func (rs *restorer) RestoreChunk(ctx context.Context, idx uint64, r io.Reader) (bool, error) {
+	var checkpoint *Metadata
 	chunk, err := func() (*ChunkMetadata, error) {
 		rs.Lock()
 		defer rs.Unlock()
@@ -77,6 +78,7 @@ func (rs *restorer) RestoreChunk(ctx context.Context, idx uint64, r io.Reader) (
 			return nil, ErrChunkAlreadyRestored
 		}
 
+		checkpoint = rs.currentCheckpoint
 		return rs.currentCheckpoint.GetChunkMetadata(idx)
 	}()
 	if err != nil {
@@ -97,6 +99,12 @@ func (rs *restorer) RestoreChunk(ctx context.Context, idx uint64, r io.Reader) (
 
 	rs.Lock()
 	defer rs.Unlock()
+
+	// The restore may have been aborted (or aborted and restarted) while the chunk was being
+	// imported, e.g. because a concurrently restored chunk failed proof verification.
+	if rs.currentCheckpoint != checkpoint {
+		return false, ErrNoRestoreInProgress
+	}
 
 	// Mark the given chunk as restored.
 	delete(rs.pendingChunks, idx)
